@@ -35,4 +35,22 @@ def timedOf (l0 l1 : BitVec 8) : List Cyc → List (BitVec 8 × TOp)
 /-- the memory the CPU sees (through the current paging) -/
 def ZX.cpuMem (z : ZX) : Spec.Mem := fun a => z.ctl.readInternal a
 
+/-- The CPU state in which an instruction body runs after ONE opcode-byte fetch of an `emulate` that
+accepted no interrupt: `skip_interrupt` and a parked prefix are consumed, R has counted the fetch, PC
+points behind the byte, the Q latch has stepped. -/
+def body1 (s : Cpu) : Cpu :=
+  stepQ { s with skipInt := false, activePrefix := .none, r := incR s.r, pc := s.pc + 1 }
+
+/-- … after TWO opcode-byte fetches (DD/FD/ED prefix and opcode in the same `emulate`) -/
+def body2 (s : Cpu) : Cpu :=
+  stepQ { s with skipInt := false, activePrefix := .none, r := incR (incR s.r), pc := s.pc + 1 + 1 }
+
+/-- the byte of an index prefix -/
+def pfxByte : Pfx → BitVec 8
+  | .dd => 0xDD | .fd => 0xFD | .none => 0x00
+
+/-- the parked form of an index prefix (`active_prefix` between two `emulate` calls) -/
+def parked : Pfx → APfx
+  | .dd => .dd | .fd => .fd | .none => .none
+
 end ZxVerif.Spectrum
